@@ -65,6 +65,9 @@ class Check:
         self.uncovered = []
         self.samples = []
         self.max_confirm_per_job = 3
+        self.max_confirm_total = 12
+        self.confirm_count = 0
+        self.confirmed_descs = {}   # description -> replay path (first confirmation)
 
     # ---------------------------------------------------------------------------------
     def run(self, jobs):
@@ -97,15 +100,28 @@ class Check:
         tried = 0
         unconf = []
         for p in order:
-            if tried >= self.max_confirm_per_job:
+            if p.desc in self.confirmed_descs:
+                # the same obligation was already replayed in another query of this run
+                confirmed += 1
+                self.notes.append('%s: "%s" fails here too (same obligation already replayed: %s)'
+                                  % (j.name, p.desc, self.confirmed_descs[p.desc]))
+                continue
+            if tried >= self.max_confirm_per_job or self.confirm_count >= self.max_confirm_total:
                 break
             tried += 1
+            self.confirm_count += 1
             c = core.confirm(j, r, p, self.pid)
             if c['status'] == 'confirmed':
                 confirmed += 1
+                self.confirmed_descs[p.desc] = c['path']
                 self.violations.append((j.name, p, c))
             else:
                 unconf.append((p, c))
+        if confirmed == 0 and not unconf and self.confirm_count >= self.max_confirm_total:
+            self.notes.append('%s: %d failing obligations not replayed (replay budget of this run used up): %s'
+                              % (j.name, len(new), '; '.join(p.desc for p in new[:4])))
+            if self.violations:
+                return
         if confirmed == 0:
             for p, c in unconf:
                 self.inconclusive.append(
